@@ -195,6 +195,8 @@ from . import vocab
 
 from . import timers
 
+from . import inventory
+
 OBLIGATIONS = [
     ('C04.O1', 'the gate', 'The new-frame step implies current - last_confirmed < max_prediction (current < max_prediction '
      'while nothing is confirmed). A stricter gate passes, a weaker one does not.', o1),
@@ -212,4 +214,5 @@ OBLIGATIONS = [
     ('C04.M', 'must-call floor', 'the calls listed for this property in tables/must_call.json are made on every path from the entry of their function to a normal return (interprocedural must-call): a new early return, fast path or extra condition in front of one of them is reported; see rules/mustcall.py', mustcall.rule_for('C04')),
     ('C04.V', 'no unreviewed condition in the pinned helpers', 'for each helper whose body this property\'s rules pin (tables/condition_terms.json), the terms its path conditions are built from (fields, parameters, call results -- no constants, operators or local names) are a subset of the reviewed vocabulary: one more `if` in front of a pinned result (a lock that may time out, "only while an endpoint is running") is reported; see rules/vocab.py', vocab.rule_for('C04')),
     ('C04.T', 'who counts as connected is decided by the timer table', 'the speculation bound is relative to the newest input of every player the session considers connected; a live peer that is wrongly timed out stops bounding it. Dependency, shared with C05.T / C12.T: timestamps are clock readings taken where the packet is handled, each timer has its own field, guard and re-arm site; see rules/timers.py', timers.rule),
+    ('C04.S', 'state inventory', 'every field of the structs this property\'s rules read (tables/state.json) is known, and is written only by its reviewed writers (or helpers only they call): a new field is new state across calls -- a cache, a flag, a stored deadline -- that nothing has shown to stay in step; a new writer is a second place that resets, re-arms or moves something; see rules/inventory.py', inventory.state_rule_for('C04')),
 ]
